@@ -56,6 +56,11 @@ NOT_DECIDED = ('ZDIV does not decide that EVERY path to the C division passes a 
                'nb_<slot> fallbacks chosen by the template, the generic NotImplemented/subclass protocol of the CPython fallbacks, and whether '
                'the coercions around the call preserve the result type.  The I3 clause of DESIGN.md is decided in the exact form "passed '
                'arguments vs expanded prototype"; the declared CFuncType is only compared for the constant parameter and the return kind.')
+DECIDES += (' (IDENT, rules/fzero.py) every `return __Pyx_NewRef(opK)` shortcut of PyNumberBinop (the helper a float / int TYPED operand such as the constant in `0.0 * x` goes '
+            'through) returns an operand only where `op1 <op> op2` is exactly that operand, same type and same sign of zero, on the complete class partition {<0, 0, >0} x '
+            '{-inf, <0, -0.0, +0.0, >0, +inf, nan}; (FAST/modadj) a conditional floor adjustment of the float remainder is decided under its path conditions, every sign combination that '
+            'needs the divisor added reaches one, and for float divisors the domain contains +-inf (a flag multiplied with the divisor gives 0 * inf = NaN).')
+NOT_DECIDED += (' IDENT decides the identity shortcuts only, not the arithmetic on the non-shortcut paths of PyNumberBinop (plain C double / PyLong slot calls), nor its subclass fallbacks.')
 ASSUMPTIONS = ['C long has at least 32 bits and long long at least 64 bits (C11 5.2.4.2.1); PyLong_SHIFT is 15 or 30 (CPython longintrepr.h)',
                'the special method reached by PyNumber_<Op>/PyObject_RichCompare in the interpreter running the check is the one the target CPython uses',
                'ZDIV: the node handed to optimise_numeric_binop by the operator handlers is the binop node itself, and its result type is a Python object '
@@ -662,7 +667,8 @@ def run(ctx):
     # ------------------------------------------------------------------------------------------ SHIFT
     rules.append(rule_shift(ctx, cls, handlers, fw))
     # ------------------------------------------------------------------------------------------ SIB
-    rules.append(P.rule_sib(ctx, 'C02-SIB'))
+    from ..rules import sC03
+    rules.append(sC03.sib_with_helpers(ctx, 'C02-SIB')[0])
     # ------------------------------------------------------------------------------------------ ZDIV (rules/sC02.py)
     rules.append(sC02.rule_zdiv(ctx, fn, fvar, points, trees, cop, capi_dunder))
     rules.append(sC02.rule_fast(ctx, points, trees))
@@ -670,6 +676,8 @@ def run(ctx):
     rules.append(sC02.rule_join(ctx))
     rules.append(sC02.rule_mant(ctx, points, trees))
     rules.append(sC02.rule_inplace_flag(ctx, fn, fvar, points))
+    from ..rules import fzero
+    rules.append(fzero.rule_ident(ctx, 'C02-IDENT', floor=40))
     return rules
 
 
